@@ -604,3 +604,45 @@ Proof.
   - apply advertise_implies_show; assumption.
   - apply show_implies_advertise; assumption.
 Qed.
+
+(* ---------- show_diags_subset_default: false of the faithful model ---------- *)
+Definition fresh (l : lstate) : Prop := l_modified l = false.
+
+Definition show_diags_subset_default_full : Prop :=
+  forall only ls cs, Forall fresh ls ->
+  s_panic (run Default only ls cs) = false -> s_panic (run ShowAutofix only ls cs) = false ->
+  forall it, In it (diags (run ShowAutofix only ls cs)) -> In it (diags (run Default only ls cs)).
+
+(* witness: the line `X = v`; the first check removes the space after the
+   variable name with Replace (= ReplaceAfter); the second check looks at
+   Line.Text and re-aligns the value only when it sees `X=`.  Neither check
+   looks at the mode. *)
+Definition wit_line : lstate := mk_line [102] 1 [88;32;61;32;118] [[88;32;61;32;118;10]].
+Definition wit_check1 : check :=
+  fun _ => [EFix 0 Note [49] [49] false [OReplaceAfter [] [88;32;61] [88;61]]].
+Definition wit_check2 : check :=
+  fun ls => match ls with
+            | l :: _ => if has_prefix [88;61] (l_text l)
+                        then [EFix 0 Note [50] [50] false [OReplaceAt 0 2 [32] [9]]]
+                        else []
+            | [] => []
+            end.
+Definition wit_item : item := IDiag Note [102] (1, 1) [50].
+
+Lemma wit_show : In wit_item (diags (run ShowAutofix [] [wit_line] [wit_check1; wit_check2])).
+Proof. vm_compute. right. left. reflexivity. Qed.
+Lemma wit_default : ~ In wit_item (diags (run Default [] [wit_line] [wit_check1; wit_check2])).
+Proof. vm_compute. intros [H|[]]. discriminate H. Qed.
+Lemma wit_no_panic :
+  s_panic (run Default [] [wit_line] [wit_check1; wit_check2]) = false
+  /\ s_panic (run ShowAutofix [] [wit_line] [wit_check1; wit_check2]) = false.
+Proof. split; vm_compute; reflexivity. Qed.
+
+Theorem show_diags_subset_default_refuted : ~ show_diags_subset_default_full.
+Proof.
+  intros H. apply wit_default. apply H.
+  - repeat constructor.
+  - apply wit_no_panic.
+  - apply wit_no_panic.
+  - apply wit_show.
+Qed.
